@@ -260,7 +260,9 @@ theorem registrations_eq : ∀ t, registrationsG? = some t → t = regTable := b
 
 /-- the decoder names of the config are the format names the model uses, and `IsValid` accepts exactly those -/
 theorem decoderTypes_eq :
-    decoderTypesG.map (·.2) = ["jsonline", "raw", "uri", "uripost"] ∧ validDecodersG = validDecoders := by decide
+    decoderTypesG.map (·.2) = ["jsonline", "raw", "uri", "uripost"] ∧ (∀ v, validDecodersG? = some v → v = validDecoders) := by
+  refine ⟨by decide, ?_⟩
+  intro v h; cases h <;> decide
 
 /-- the `uris` option is joined with a newline: `urisFile` -/
 theorem urisSep_eq : ∀ s, urisSepG? = some s → s = [LF] := by
